@@ -179,7 +179,11 @@ def run(tier, seed):
         phases[name] = round(time.time() - t_phase[0], 1)
         t_phase[0] = time.time()
     # 1. sync
-    sy = vplib.sync(["panicsites"])   # only this check's table (the Coq cone of C07 depends on no other generated file)
+    # only this check's table: the Coq cone of C07 depends on no other generated file.  sync_tables.run is called
+    # directly (vplib.sync would wait for the lock that serialises everybody's Coq builds; nothing but C07 reads
+    # Gen/PanicSites.v, and prove() below takes that lock before building).
+    import sync_tables
+    sy = sync_tables.run(["panicsites"])
     inv_info = check_inventory(v, sy)
     if tier == "thorough":
         inv_info["operator_impls_unused_outside_tests"] = check_operator_impls_unused(v)
